@@ -209,7 +209,11 @@ fn lex_block_string(lexer: &mut Lexer<'_, IsographLangTokenKind>) -> bool {
                 return true;
             }
             BlockStringToken::EscapedTripleQuote | BlockStringToken::Other => {}
-            BlockStringToken::Error => unreachable!(),
+            BlockStringToken::Error => {
+                // A character outside of the block string character set
+                // (e.g. a control character or one beyond U+FFFF).
+                return false;
+            }
         }
     }
     false
